@@ -11,7 +11,7 @@ open Node Raft Raft.CC RaftProps.C02 RaftProps.C05 RaftProps.C04
 variable {cfg : JointConfig} {c0 : Nat} {h : List Sys}
 
 /-- the commit index is never below the common snapshot point -/
-theorem c0_le_committed (H : Hyp2 cfg c0 h) {n : Nat} {s : Sys} (hn : h[n]? = some s) {v : Nat}
+theorem c0_le_committed (H : Hyp2w cfg c0 h) {n : Nat} {s : Sys} (hn : h[n]? = some s) {v : Nat}
     {st : NState} (hv : s.node v = some st) : c0 ≤ st.raft.raftLog.committed := by
   have o := node_ok H hn hv
   have := o.inv.dummy_le_committed
@@ -21,7 +21,7 @@ theorem c0_le_committed (H : Hyp2 cfg c0 h) {n : Nat} {s : Sys} (hn : h[n]? = so
   omega
 
 /-- a `call` / `deliver` step keeps the entries up to the commit index -/
-theorem call_keeps_committed (H : Hyp2 cfg c0 h) {n : Nat} {a b : Sys} (ha : h[n]? = some a)
+theorem call_keeps_committed (H : Hyp2w cfg c0 h) {n : Nat} {a b : Sys} (ha : h[n]? = some a)
     (hb : h[n + 1]? = some b) {k : Nat} {st st' : NState} (hk : a.node k = some st)
     (hs : CallStep a k st st') :
     EqUpTo st'.raft.raftLog.abs st.raft.raftLog.abs st.raft.raftLog.committed := by
@@ -44,12 +44,12 @@ theorem covered_of_src {n cL τ τ' c' : Nat} {L g : LLog} (hcov : Covered h c0 
   · exact .inl (by omega)
   · exact .inr ⟨E0, h1, by omega, by omega, by omega, heq.trans (h5.mono hle)⟩
 
-theorem nctm_step (H : Hyp3 cfg c0 h) {n : Nat} (S : SAll h c0 n) {a b : Sys}
+theorem nctm_step (H : Hyp3a cfg c0 h) {n : Nat} (S : SAll h c0 n) {a b : Sys}
     (ha : h[n]? = some a) (hb : h[n + 1]? = some b) :
     ∀ v st', b.node v = some st' →
       Covered h c0 (n + 1) st'.raft.raftLog.committed st'.raft.term st'.raft.raftLog.abs := by
   intro v st' hvb
-  have H2 := H.toHyp2
+  have H2 := H.toHyp2w
   have Sa := S n a (Nat.le_refl _) ha
   obtain ⟨k, stk, stk', hka, hkb, hoth, hs⟩ := stp_of H2 ha hb
   by_cases hvk : v = k
@@ -179,7 +179,50 @@ theorem nctm_step (H : Hyp3 cfg c0 h) {n : Nat} (S : SAll h c0 n) {a b : Sys}
                     (fun j hj => ?_)
                   rw [hlog]
                   exact heq j (by omega)
-              | readIndexResp ht _ _ _ => exact absurd ht (H.norir a (mem_of_get ha) m hm)
+              | readIndexResp ht hterm hc' _ =>
+                -- a read index of a leader of the message's term: the sender's commit index covered it
+                have hq := (call_facts H2 ha hka (.inr ⟨m, rfl, hm, hto⟩) hnc hcall).2.2.1
+                have hlog : st'.raft.raftLog.abs = stk.raft.raftLog.abs := by
+                  rcases hq.l with c | ⟨es, c⟩ | c
+                  · exact c
+                  · exact absurd c.leader hlead
+                  · have c' : m.msgType = .msgAppend := c
+                    rw [c'] at ht; cases ht
+                have oa := node_ok H2 ha hka
+                have hterm' : stk.raft.raftLog.abs.term m.index = .ok m.term := by
+                  rw [← hls.abs, ← (hls.inv oa.inv).term_abs]; exact hterm
+                obtain ⟨n0, s0, w, stw, hn0, hs0, hw, hwl, hwt, hwi⟩ := H.rirs n a ha m hm ht
+                have ow := node_ok H2 hs0 hw
+                have htnz : m.term ≠ 0 := by
+                  rw [← hwt]; exact (hall s0 (mem_of_get hs0)).tz w stw hw (.inr hwl)
+                obtain ⟨e1, he1, ht1⟩ := stk.raft.raftLog.abs.entry_of_term hterm' htnz
+                  (by rw [oa.snapIdx]; omega)
+                have hLw : LeaderLog h n m.term stw.raft.raftLog.abs :=
+                  ⟨n0, s0, w, stw, hn0, hs0, hw, hwl, hwt, rfl⟩
+                have hreach : m.index ≤ stw.raft.raftLog.abs.lastIndex := by
+                  rw [← ow.inv.lastIndex_abs]
+                  exact Nat.le_trans hwi ow.inv.committed_le_last
+                have hhas : Has stw.raft.raftLog.abs m.index m.term := by
+                  obtain ⟨si, hsi, hprov⟩ := entry_prov H2
+                  rcases hprov n a ha (.log v) _ (at_log hka) m.index e1 he1 with c | c
+                  · have := init_entry_term H2 hsi c hs0 (l := w) (t := m.term) ⟨stw, hw, hwl, hwt⟩
+                    omega
+                  · obtain ⟨m', s', l', stl, c1, c2, c3, c4, c5, c6, _⟩ := c
+                    have hL' : LeaderLog h n m.term stl.raft.raftLog.abs :=
+                      ⟨m', s', l', stl, c1, c2, c3, c4, c5.trans ht1, rfl⟩
+                    have := ll_eq H2 hL' hLw (stl.raft.raftLog.abs.entryAt_lt c6).2 hreach
+                    exact ⟨e1, this.symm.trans c6, ht1⟩
+                have heq := eq_ll H2 ha hka hLw ⟨e1, he1, ht1⟩ hhas
+                have hτ : stw.raft.term ≤ st'.raft.term := by
+                  rw [hwt]
+                  rcases hrecv with c | ⟨c1, _⟩ | ⟨c1, _⟩
+                  · exact c
+                  · rw [c1] at ht; cases ht
+                  · rw [c1] at ht; cases ht
+                refine covered_of_src (((S n0 s0 hn0 hs0).nctm w stw hw).mono hn0 (Nat.le_refl _))
+                  (c' := st'.raft.raftLog.committed) (by omega) hτ (fun j hj => ?_)
+                rw [hlog]
+                exact heq j (by omega)
   · have hva : a.node v = some st' := by rw [← hoth v hvk]; exact hvb
     exact (Sa.nctm v st' hva).mono (Nat.le_succ _) (Nat.le_refl _)
 
